@@ -38,7 +38,7 @@ func (x *Exec) binInt(op token.Token, a, b Int) Val {
 		return x.shift(op, a, b)
 	}
 	if a.W != b.W {
-		panic(fmt.Sprintf("width mismatch %d %d at %s", a.W, b.W, x.curPos))
+		panic(fmt.Sprintf("width mismatch %d %d at %s", a.W, b.W, x.where()))
 	}
 	w, s := a.W, a.S
 	if a.conc() && b.conc() {
@@ -238,7 +238,7 @@ func (x *Exec) shift(op token.Token, a, b Int) Val {
 // ---- strings ----
 func (x *Exec) needContent(s Str, what string) {
 	if s.Op != nil {
-		panic(unsupported{"content of opaque string (" + s.Op.Kind + ") needed by " + what + " at " + x.curPos})
+		panic(unsupported{"content of opaque string (" + s.Op.Kind + ") needed by " + what + " at " + x.where()})
 	}
 }
 
@@ -354,6 +354,14 @@ func (x *Exec) fltBin(op token.Token, a, b Flt) Val {
 		}
 	}
 	at, bt := a.term(), b.term()
+	if a.T != "" && a.T == b.T && (op == token.EQL || op == token.NEQ || op == token.LEQ || op == token.GEQ) {
+		// x == x holds unless x is NaN
+		r := x.nmB(Bool{T: "(not (fp.isNaN " + a.T + "))"})
+		if op == token.NEQ {
+			return not(r)
+		}
+		return r
+	}
 	if a.T == "" && math.IsNaN(a.C) {
 		at = "(_ NaN 11 53)"
 	}
@@ -669,7 +677,7 @@ func (x *Exec) binop(op token.Token, a, b Val) Val {
 		}
 		return Bool{C: !e}
 	}
-	panic(unsupported{fmt.Sprintf("binop %s on %T at %s", op, a, x.curPos)})
+	panic(unsupported{fmt.Sprintf("binop %s on %T at %s", op, a, x.where())})
 }
 
 // lazyVsConcrete: l == c where c is a concrete interface value.
